@@ -34,6 +34,14 @@ func lintProps(pkg string) []string {
 		return []string{"C17", "C13"}
 	case strings.Contains(pkg, "/shard/cache"):
 		return []string{"C11"}
+	case strings.HasSuffix(pkg, "/shard/index/text"):
+		return []string{"C05"}
+	case strings.HasSuffix(pkg, "/shard/index/vamana"):
+		return []string{"C03", "C10"}
+	case strings.HasSuffix(pkg, "/shard/index/flat"):
+		return []string{"C04"}
+	case strings.HasSuffix(pkg, "/shard/index"):
+		return []string{"C02", "C06"}
 	case strings.Contains(pkg, "/shard/index"):
 		return []string{"C02"}
 	case strings.HasSuffix(pkg, "/shard/vectorstore"):
@@ -327,4 +335,621 @@ func storeBlocksInto(addr ssa.Value, depth int) []*ssa.BasicBlock {
 		}
 	}
 	return out
+}
+
+// ------------------------------------------------------------ SKIPPEDEFFECT
+//
+// "flag = flag || set.CheckedRemove(id)": once the flag is true the right-hand
+// side is not evaluated, and with it the removal it was written for. A call
+// that changes something and whose result only feeds the short-circuit value
+// of && or || must not sit on the side that can be skipped. In SSA: a call to
+// a mutating function whose result is an incoming value of a boolean phi that
+// also has a constant incoming value (the short-circuit), and whose block does
+// not dominate the phi: there is a way to the phi around the call. Only the
+// accumulating form is reported — the condition that skips the call is the old
+// value of the very variable the result is assigned to ("x = x || f()");
+// "ok := cond && f()" with an unrelated cond is a deliberate conditional call.
+
+var mutatorNames = []string{"Checked", "Add", "Remove", "Delete", "Put", "Set", "Flip", "Clear", "Insert", "Append", "Push", "Pop", "Store", "Write", "Flush", "Update"}
+
+func mutatingCallee(call *ssa.Call) (string, bool) {
+	name := ""
+	if call.Call.IsInvoke() {
+		name = call.Call.Method.Name()
+	} else if g := call.Call.StaticCallee(); g != nil {
+		name = g.Name()
+	}
+	for _, m := range mutatorNames {
+		if strings.HasPrefix(name, m) {
+			return name, true
+		}
+	}
+	return name, false
+}
+
+func SkippedEffect(w *load.World, c *core.Collector) {
+	type hit struct{ where, what string }
+	per := map[string][]hit{}
+	seenPkg := map[string]bool{}
+	n := 0
+	for _, f := range w.Fns {
+		if !load.InMod(f) || f.Synthetic != "" {
+			continue
+		}
+		pkg := load.PkgPath(f)
+		seenPkg[pkg] = true
+		for _, b := range f.Blocks {
+			for _, in := range b.Instrs {
+				phi, ok := in.(*ssa.Phi)
+				if !ok {
+					continue
+				}
+				if bt, ok := phi.Type().Underlying().(*types.Basic); !ok || bt.Kind() != types.Bool {
+					continue
+				}
+				hasConst := false
+				for _, e := range phi.Edges {
+					if _, isC := e.(*ssa.Const); isC {
+						hasConst = true
+					}
+				}
+				if !hasConst {
+					continue
+				}
+				n++
+				for _, e := range phi.Edges {
+					call, ok := e.(*ssa.Call)
+					if !ok {
+						continue
+					}
+					name, mut := mutatingCallee(call)
+					if !mut || call.Block().Dominates(b) || !accumulates(phi) {
+						continue
+					}
+					per[pkg] = append(per[pkg], hit{w.At(call), fmt.Sprintf("%s changes state but is only evaluated when the left-hand side of the && / || it stands in does not already decide the result: the change is skipped on that path", name)})
+				}
+			}
+		}
+	}
+	c.Count("short_circuit_values", n)
+	var pkgs []string
+	for p := range seenPkg {
+		pkgs = append(pkgs, p)
+	}
+	sort.Strings(pkgs)
+	for _, p := range pkgs {
+		props := lintProps(p)
+		if props == nil {
+			continue
+		}
+		key := "short-circuit:" + load.Short(p)
+		hs := per[p]
+		if len(hs) == 0 {
+			c.Add("SKIPPEDEFFECT", key, core.OK, "", "", props...)
+			continue
+		}
+		sort.Slice(hs, func(i, j int) bool { return hs[i].where < hs[j].where })
+		var parts []string
+		for _, h := range hs {
+			parts = append(parts, h.where+": "+h.what)
+		}
+		c.Add("SKIPPEDEFFECT", key, core.Violation, hs[0].where, strings.Join(parts, "; "), props...)
+	}
+}
+
+// accumulates: the short-circuit condition of the boolean phi is the previous value of the
+// variable the phi is assigned to: a load of the address it is stored to, or a phi that it feeds.
+func accumulates(phi *ssa.Phi) bool {
+	b := phi.Block()
+	for i, e := range phi.Edges {
+		if _, isC := e.(*ssa.Const); !isC {
+			continue
+		}
+		pred := b.Preds[i]
+		ifi, ok := pred.Instrs[len(pred.Instrs)-1].(*ssa.If)
+		if !ok {
+			continue
+		}
+		cond := ifi.Cond
+		if u, ok := cond.(*ssa.UnOp); ok && u.Op == token.NOT {
+			cond = u.X
+		}
+		// (a) stored to the address the condition was loaded from
+		if ld, ok := cond.(*ssa.UnOp); ok && ld.Op == token.MUL {
+			lp, _ := ssax.Path(ld.X)
+			for _, r := range *phi.Referrers() {
+				if st, ok := r.(*ssa.Store); ok && st.Val == ssa.Value(phi) {
+					if sp, _ := ssax.Path(st.Addr); st.Addr == ld.X || (sp != "" && sp == lp) {
+						return true
+					}
+				}
+			}
+		}
+		// (b) a loop-carried variable: the condition is a phi that this one feeds
+		if cp, ok := cond.(*ssa.Phi); ok {
+			for _, ce := range cp.Edges {
+				if ce == ssa.Value(phi) {
+					return true
+				}
+			}
+		}
+	}
+	return false
+}
+
+// ---------------------------------------------------------------- ELEMPTR
+//
+// "m[id] = &results[len(results)-1]" while results keeps growing by append in
+// the same loop: the first append that outgrows the capacity moves the
+// elements, the pointers kept in the map still point into the old array, and
+// what is written through them (scores added for a point found again) never
+// reaches the slice that is returned. Reported: the address of an element of a
+// slice variable is stored into a map, a field or another slice inside a loop
+// in which that same variable is assigned the result of an append.
+
+func ElemPtr(w *load.World, c *core.Collector) {
+	type hit struct{ where, what string }
+	per := map[string][]hit{}
+	seenPkg := map[string]bool{}
+	n := 0
+	for _, f := range w.Fns {
+		if !load.InMod(f) || f.Synthetic != "" {
+			continue
+		}
+		pkg := load.PkgPath(f)
+		seenPkg[pkg] = true
+		// the slice variables: values connected by phis and by append (result ~ first argument)
+		parent := map[ssa.Value]ssa.Value{}
+		var find func(v ssa.Value) ssa.Value
+		find = func(v ssa.Value) ssa.Value {
+			p, ok := parent[v]
+			if !ok || p == v {
+				parent[v] = v
+				return v
+			}
+			r := find(p)
+			parent[v] = r
+			return r
+		}
+		union := func(a, b ssa.Value) { parent[find(a)] = find(b) }
+		var appends []*ssa.Call
+		for _, b := range f.Blocks {
+			for _, in := range b.Instrs {
+				switch x := in.(type) {
+				case *ssa.Phi:
+					if _, isSlice := x.Type().Underlying().(*types.Slice); isSlice {
+						for _, e := range x.Edges {
+							union(x, e)
+						}
+					}
+				case *ssa.Call:
+					if bi, ok := x.Call.Value.(*ssa.Builtin); ok && bi.Name() == "append" && len(x.Call.Args) > 0 {
+						union(x, x.Call.Args[0])
+						appends = append(appends, x)
+					}
+				}
+			}
+		}
+		if len(appends) == 0 {
+			continue
+		}
+		for _, b := range f.Blocks {
+			for _, in := range b.Instrs {
+				var kept ssa.Value
+				switch x := in.(type) {
+				case *ssa.MapUpdate:
+					kept = x.Value
+				case *ssa.Store:
+					if _, local := x.Addr.(*ssa.Alloc); !local {
+						kept = x.Val
+					}
+				}
+				ia, ok := kept.(*ssa.IndexAddr)
+				if !ok {
+					continue
+				}
+				if _, isSlice := ia.X.Type().Underlying().(*types.Slice); !isSlice {
+					continue
+				}
+				n++
+				for _, a := range appends {
+					if find(a) != find(ia.X) {
+						continue
+					}
+					// the keep and the append are on one cycle
+					if ssax.Reaches(b, a.Block()) && ssax.Reaches(a.Block(), b) && inLoop(b) {
+						per[pkg] = append(per[pkg], hit{w.At(in), fmt.Sprintf("a pointer to an element of a slice is kept here while the loop goes on appending to that slice (%s): when append reallocates, the pointer is left pointing into the old array and updates made through it are lost", w.At(a))})
+						break
+					}
+				}
+			}
+		}
+	}
+	c.Count("element_pointers_kept", n)
+	var pkgs []string
+	for p := range seenPkg {
+		pkgs = append(pkgs, p)
+	}
+	sort.Strings(pkgs)
+	for _, p := range pkgs {
+		props := lintProps(p)
+		if props == nil {
+			continue
+		}
+		key := "kept-across-append:" + load.Short(p)
+		hs := per[p]
+		if len(hs) == 0 {
+			c.Add("ELEMPTR", key, core.OK, "", "", props...)
+			continue
+		}
+		sort.Slice(hs, func(i, j int) bool { return hs[i].where < hs[j].where })
+		var parts []string
+		for _, h := range hs {
+			parts = append(parts, h.where+": "+h.what)
+		}
+		c.Add("ELEMPTR", key, core.Violation, hs[0].where, strings.Join(dedupe(parts), "; "), props...)
+	}
+}
+
+// ---------------------------------------------------------------- WGWAIT
+//
+// A function that starts goroutines which report to a local sync.WaitGroup
+// owns them: they use what the function was given (buckets of the caller's
+// read transaction, the caller's slices). It must not return while they run:
+// every return that can follow a go statement is behind wg.Wait() called by the
+// function itself — a Wait moved into yet another goroutine (to select on it
+// together with ctx.Done()) does not hold the function back.
+
+func WgWait(w *load.World, c *core.Collector) {
+	n := 0
+	for _, f := range w.Fns {
+		if !load.InMod(f) || f.Synthetic != "" {
+			continue
+		}
+		for _, b := range f.Blocks {
+			for _, in := range b.Instrs {
+				wg, ok := in.(*ssa.Alloc)
+				if !ok || ssax.TypeName(wg.Type()) != "sync.WaitGroup" {
+					continue
+				}
+				// goroutines started here that call Done on it
+				var gos []*ssa.Go
+				for _, gb := range f.Blocks {
+					for _, gi := range gb.Instrs {
+						g, ok := gi.(*ssa.Go)
+						if !ok {
+							continue
+						}
+						mc, ok := g.Call.Value.(*ssa.MakeClosure)
+						if !ok {
+							continue
+						}
+						lit, _ := mc.Fn.(*ssa.Function)
+						if lit == nil {
+							continue
+						}
+						for i, bnd := range mc.Bindings {
+							if bnd != ssa.Value(wg) || i >= len(lit.FreeVars) {
+								continue
+							}
+							for _, r := range *lit.FreeVars[i].Referrers() {
+								switch x := r.(type) {
+								case *ssa.Call:
+									if x.Call.StaticCallee() != nil && x.Call.StaticCallee().Name() == "Done" {
+										gos = append(gos, g)
+									}
+								case *ssa.Defer:
+									if x.Call.StaticCallee() != nil && x.Call.StaticCallee().Name() == "Done" {
+										gos = append(gos, g)
+									}
+								}
+							}
+						}
+					}
+				}
+				if len(gos) == 0 {
+					continue
+				}
+				// a function that hands back a channel is a pipeline stage: its completion is the
+				// closing of that channel, which its callers wait for (rule JOIN)
+				returnsChan := false
+				for i := 0; i < f.Signature.Results().Len(); i++ {
+					if _, isChan := f.Signature.Results().At(i).Type().Underlying().(*types.Chan); isChan {
+						returnsChan = true
+					}
+				}
+				if returnsChan {
+					continue
+				}
+				n++
+				// events after which the goroutines have finished: Wait called by the function itself, or
+				// a receive from a channel that a goroutine of this function closes (or sends on) after Wait
+				barrier := map[*ssa.BasicBlock]ssa.Instruction{}
+				var banned []ssax.Edge
+				for _, r := range *wg.Referrers() {
+					if call, ok := r.(*ssa.Call); ok && call.Call.StaticCallee() != nil && call.Call.StaticCallee().Name() == "Wait" {
+						barrier[call.Block()] = call
+					}
+				}
+				doneChans := map[ssa.Value]bool{}
+				for _, gb := range f.Blocks {
+					for _, gi := range gb.Instrs {
+						g, ok := gi.(*ssa.Go)
+						if !ok {
+							continue
+						}
+						mc, ok := g.Call.Value.(*ssa.MakeClosure)
+						if !ok {
+							continue
+						}
+						lit, _ := mc.Fn.(*ssa.Function)
+						if lit == nil {
+							continue
+						}
+						var waitCall ssa.Instruction
+						for i, bnd := range mc.Bindings {
+							if bnd == ssa.Value(wg) && i < len(lit.FreeVars) {
+								for _, r := range *lit.FreeVars[i].Referrers() {
+									if call, ok := r.(*ssa.Call); ok && call.Call.StaticCallee() != nil && call.Call.StaticCallee().Name() == "Wait" {
+										waitCall = call
+									}
+								}
+							}
+						}
+						if waitCall == nil {
+							continue
+						}
+						for _, lb := range lit.Blocks {
+							for _, li := range lb.Instrs {
+								var ch ssa.Value
+								switch x := li.(type) {
+								case *ssa.Call:
+									if bi, ok := x.Call.Value.(*ssa.Builtin); ok && bi.Name() == "close" {
+										ch = x.Call.Args[0]
+									}
+								case *ssa.Send:
+									ch = x.Chan
+								}
+								if ch == nil || !ssax.Precedes(waitCall, li) {
+									continue
+								}
+								// which channel of the parent is it
+								if ld, ok := ch.(*ssa.UnOp); ok {
+									ch = ld.X
+								}
+								if fv, ok := ch.(*ssa.FreeVar); ok {
+									for i, q := range lit.FreeVars {
+										if q == fv && i < len(mc.Bindings) {
+											doneChans[mc.Bindings[i]] = true
+										}
+									}
+								}
+							}
+						}
+					}
+				}
+				isDone := func(v ssa.Value) bool {
+					if doneChans[v] {
+						return true
+					}
+					if ld, ok := v.(*ssa.UnOp); ok && doneChans[ld.X] {
+						return true
+					}
+					return false
+				}
+				for _, rb := range f.Blocks {
+					for _, ri := range rb.Instrs {
+						switch x := ri.(type) {
+						case *ssa.UnOp:
+							if x.Op == token.ARROW && isDone(x.X) {
+								barrier[rb] = x
+							}
+						case *ssa.Select:
+							// only the arm of that channel
+							for k, st := range x.States {
+								if !isDone(st.Chan) {
+									continue
+								}
+								for _, r := range *x.Referrers() {
+									ex, ok := r.(*ssa.Extract)
+									if !ok || ex.Index != 0 {
+										continue
+									}
+									for _, rr := range *ex.Referrers() {
+										bo, ok := rr.(*ssa.BinOp)
+										if !ok || bo.Op != token.EQL {
+											continue
+										}
+										if kc, isC := ssax.ConstInt(bo.Y); isC && int(kc) == k {
+											for _, r3 := range *bo.Referrers() {
+												if ifi, ok := r3.(*ssa.If); ok {
+													banned = append(banned, ssax.Edge{From: ifi.Block(), Succ: 0})
+												}
+											}
+										}
+									}
+								}
+							}
+						}
+					}
+				}
+				isBanned := func(b *ssa.BasicBlock, i int) bool {
+					for _, e := range banned {
+						if e.From == b && e.Succ == i {
+							return true
+						}
+					}
+					return false
+				}
+				bad := ""
+				for _, rb := range f.Blocks {
+					ret, ok := rb.Instrs[len(rb.Instrs)-1].(*ssa.Return)
+					if !ok {
+						continue
+					}
+					for _, g := range gos {
+						// from the go statement to the return without such an event
+						seen := map[*ssa.BasicBlock]bool{}
+						var dfs func(x *ssa.BasicBlock, first bool) bool
+						dfs = func(x *ssa.BasicBlock, first bool) bool {
+							if ev, isB := barrier[x]; isB && !(first && ssax.Precedes(ev, g)) {
+								return false
+							}
+							if x == rb {
+								return true
+							}
+							if seen[x] {
+								return false
+							}
+							seen[x] = true
+							for i, s := range x.Succs {
+								if isBanned(x, i) {
+									continue
+								}
+								if dfs(s, false) {
+									return true
+								}
+							}
+							return false
+						}
+						if dfs(g.Block(), true) {
+							bad = w.At(ret)
+						}
+					}
+				}
+				props := []string{"C09"}
+				if strings.HasSuffix(load.PkgPath(f), "/cluster") {
+					props = []string{"C17"}
+				}
+				key := "waits:" + load.FnKey(f)
+				if bad != "" {
+					c.Add("WGWAIT", key, core.Violation, bad, "the function can return while goroutines it started (and that report to its WaitGroup) are still running: they go on using the transaction, buckets and slices of a caller that has moved on", props...)
+				} else {
+					c.Add("WGWAIT", key, core.OK, w.At(gos[0]), "", props...)
+				}
+			}
+		}
+	}
+	c.Count("waitgroup_owners", n)
+	if n < 4 {
+		c.Add("WGWAIT", "anchor", core.Undecided, "", fmt.Sprintf("found %d functions that start goroutines on a local WaitGroup, expected at least 4", n), "C09", "C17")
+	}
+}
+
+// ------------------------------------------------------------- TEMPLATEMAP
+//
+// "req = baseReq; req.Dest = d; ...; req.KeyValues[k] = v": copying a struct
+// copies its map field as a reference. When the template lives outside the loop
+// (or outside the callback that runs once per record) every copy made from it
+// writes into the one map of the template: each destination's request ends up
+// with the records of all destinations. Reported: an update of a map reached
+// through a field of a struct variable that was assigned, as a whole, the value
+// of a variable of an enclosing scope (a captured variable, or one declared
+// outside the loop), unless that field was given a map of its own afterwards.
+
+func TemplateMap(w *load.World, c *core.Collector) {
+	type hit struct{ where, what string }
+	per := map[string][]hit{}
+	seenPkg := map[string]bool{}
+	n := 0
+	for _, f := range w.Fns {
+		if !load.InMod(f) || f.Synthetic != "" {
+			continue
+		}
+		pkg := load.PkgPath(f)
+		seenPkg[pkg] = true
+		for _, b := range f.Blocks {
+			for _, in := range b.Instrs {
+				mu, ok := in.(*ssa.MapUpdate)
+				if !ok {
+					continue
+				}
+				ld, ok := mu.Map.(*ssa.UnOp)
+				if !ok || ld.Op != token.MUL {
+					continue
+				}
+				fa, ok := ld.X.(*ssa.FieldAddr)
+				if !ok {
+					continue
+				}
+				a, ok := fa.X.(*ssa.Alloc)
+				if !ok {
+					continue
+				}
+				n++
+				// whole-struct copies into a from a variable of an enclosing scope
+				for _, r := range *a.Referrers() {
+					st, ok := r.(*ssa.Store)
+					if !ok || st.Addr != ssa.Value(a) {
+						continue
+					}
+					src, ok := st.Val.(*ssa.UnOp)
+					if !ok || src.Op != token.MUL {
+						continue
+					}
+					outer := false
+					name := ""
+					switch t := src.X.(type) {
+					case *ssa.FreeVar:
+						outer, name = true, t.Name()
+					case *ssa.Alloc:
+						// declared outside the loop in which the copy is made
+						if t != a && inLoop(st.Block()) && !(ssax.Reaches(t.Block(), st.Block()) && ssax.Reaches(st.Block(), t.Block())) {
+							outer, name = true, t.Comment
+						}
+					}
+					if !outer {
+						continue
+					}
+					// the field is given its own map after the copy, before the update
+					own := false
+					for _, r2 := range *a.Referrers() {
+						fa2, ok := r2.(*ssa.FieldAddr)
+						if !ok || fa2.Field != fa.Field {
+							continue
+						}
+						for _, r3 := range *fa2.Referrers() {
+							if s3, ok := r3.(*ssa.Store); ok && s3.Addr == ssa.Value(fa2) {
+								if (s3.Block() == st.Block() && ssax.Precedes(st, s3) || s3.Block() != st.Block() && st.Block().Dominates(s3.Block())) && (s3.Block() == b && ssax.Precedes(s3, mu) || s3.Block() != b && ssax.Reaches(s3.Block(), b)) {
+									own = true
+								}
+							}
+						}
+					}
+					if own {
+						continue
+					}
+					stt := ssax.StructOf(a.Type())
+					per[pkg] = append(per[pkg], hit{w.At(mu), fmt.Sprintf("the map %s.%s updated here is the one of %s, from which %s was copied as a whole (%s): every copy of the template shares that map, entries meant for one copy show up in all", a.Comment, stt.Field(fa.Field).Name(), name, a.Comment, w.At(st))})
+				}
+			}
+		}
+	}
+	c.Count("map_updates_through_struct_fields", n)
+	var pkgs []string
+	for p := range seenPkg {
+		pkgs = append(pkgs, p)
+	}
+	sort.Strings(pkgs)
+	for _, p := range pkgs {
+		props := lintProps(p)
+		if props == nil {
+			continue
+		}
+		if strings.HasSuffix(p, "/cluster") {
+			props = append(append([]string{}, props...), "C14")
+		}
+		key := "shared-template-map:" + load.Short(p)
+		hs := per[p]
+		if len(hs) == 0 {
+			c.Add("TEMPLATEMAP", key, core.OK, "", "", props...)
+			continue
+		}
+		sort.Slice(hs, func(i, j int) bool { return hs[i].where < hs[j].where })
+		var parts []string
+		for _, h := range hs {
+			parts = append(parts, h.where+": "+h.what)
+		}
+		c.Add("TEMPLATEMAP", key, core.Violation, hs[0].where, strings.Join(dedupe(parts), "; "), props...)
+	}
 }
